@@ -180,6 +180,9 @@ package airgapped
 //@   epilogue $handlerErr = (result != nil)
 //@   loop 0 invariant o.DKGIdentifier == old(o.DKGIdentifier) && am.dkgInstances == old(am.dkgInstances) && (old(o.DKGIdentifier in am.dkgInstances) ==> (o.DKGIdentifier in am.dkgInstances))
 //@   ensures[C11.nokey] result != nil && !$responsesOK ==> $keyrings == old($keyrings)
+// every participant announces the group key together with the public polynomial of the keyring it stored: the
+// announcements are what the nodes compare (one missing polynomial leaves nothing to compare that participant with)
+//@   assert@call Marshal[C02.announce.poly] istype(v, "requests.DKGProposalMasterKeyConfirmationRequest") && v.(requests.DKGProposalMasterKeyConfirmationRequest).PubPolyBz == loc(pubPolyBz) && v.(requests.DKGProposalMasterKeyConfirmationRequest).MasterKey == loc(masterPubKeyBz)
 
 // ---- what is written to the machine's database as key material is the output of encrypt under the operator's key
 //   $ciphers = byte strings produced by encrypt so far, $cipherKeysOK = every one of them was made with am.encryptionKey
